@@ -58,6 +58,24 @@ def run(ctx):
     tables(ctx)
     handlers(ctx)
     imm_table(ctx)
+    shift_amount(ctx)
+
+
+def shift_amount(ctx):
+    """C01.count from the exhaustive count sweep: the shifted amount is the architecturally masked count"""
+    from .. import shiftsweep as SS
+    ck = ctx.check
+    res = SS.sweep(ctx)
+    for form, r in sorted(res["forms"].items()):
+        where = U.handler_where(ctx.facts, ctx.dispatch, form.split("/")[0])
+        if r["amount"]:
+            for desc, cs in sorted(r["amount"].items()):
+                ck.violation("C01.count", "Code=" + form, "%s: counts %s" % (desc, SS.compress(cs)), where=where,
+                             witness={"counts": cs, "count_mask": hex(r["mask"])},
+                             what="shift result uses a count masked with the wrong width mask")
+        else:
+            ck.ok("C01.count", "Code=" + form, 256)
+    ck.cov["shift_count_evaluations"] = res["evaluations"]
 
 
 # --------------------------------------------------------------------------- forms / tables
@@ -319,9 +337,6 @@ def handlers(ctx):
                              what="a data instruction changes state other than registers, memory and flags")
             else:
                 ck.ok("C01.writes", inst)
-            # ---- shift count mask
-            if oc["mnemonic"] in ("Shl", "Shr", "Sar", "Sal") and ("imm8" in oc["kinds"] or "cl" in oc["kinds"]):
-                shift_mask(ctx, code, inst, oc, rets, where)
             # ---- conditional data forms
             if oc["cc"] != "None" and flow == "Next":
                 cond_rule(ctx, code, inst, shape, oc, inst_o, where)
